@@ -32,7 +32,8 @@ def explore(body, start_bb, root_is, mark_pred, init_constraints=None, max_paths
                     nv[l_] = ("v", rv_["agg"]["adt"], rv_["agg"]["variant"])
                     nv.pop(("a", l_), None)
                     continue
-                if "discr" in rv_ and not rv_["discr"]["proj"] and isinstance(nv.get(rv_["discr"]["l"]), tuple):
+                if "discr" in rv_ and not rv_["discr"]["proj"] and isinstance(nv.get(rv_["discr"]["l"]), tuple) \
+                        and nv[rv_["discr"]["l"]][0] == "v":
                     _, adt_, var_ = nv[rv_["discr"]["l"]]
                     dv_ = None
                     for vv_ in body.facts.adts.get(adt_, {}).get("variants", []):
@@ -61,7 +62,9 @@ def explore(body, start_bb, root_is, mark_pred, init_constraints=None, max_paths
         if tk_["k"] == "call" and not tk_["dst"]["proj"]:
             if nv is None:
                 nv = dict(vals)
-            nv.pop(tk_["dst"]["l"], None)
+            # remember which call produced the value held by this local on this path
+            nv[tk_["dst"]["l"]] = ("callres", bb)
+            nv.pop(("a", tk_["dst"]["l"]), None)
         if nv is not None:
             vals = nv
         if count > max_paths * 50:
@@ -89,7 +92,16 @@ def explore(body, start_bb, root_is, mark_pred, init_constraints=None, max_paths
                     key = tuple(names) if tag is True else (tag,) + tuple(names)
                     break
         if key is None and si is not None and switch_hook is not None:
-            hk = switch_hook(body, bb, si)
+            si_h = si
+            on_ = body.switches[bb]["on"]
+            pl_ = on_.get("copy") or on_.get("move")
+            if pl_ is not None and not pl_["proj"]:
+                cv_ = vals.get(pl_["l"])
+                if isinstance(cv_, tuple) and cv_ and cv_[0] == "callres":
+                    # on this path the tested local holds the result of that particular call
+                    si_h = dict(si)
+                    si_h["subject"] = body.call_term(cv_[1])
+            hk = switch_hook(body, bb, si_h)
             if hk is not None:
                 hkey, hedges = hk
                 for lab, tgt in hedges.items():
@@ -106,7 +118,7 @@ def explore(body, start_bb, root_is, mark_pred, init_constraints=None, max_paths
         if bb in body.switches and key is None:
             on_ = body.switches[bb]["on"]
             pl_ = on_.get("copy") or on_.get("move")
-            if pl_ is not None and not pl_["proj"] and pl_["l"] in vals:
+            if pl_ is not None and not pl_["proj"] and pl_["l"] in vals and not isinstance(vals[pl_["l"]], tuple):
                 known = vals[pl_["l"]]
         if known is None and bb in body.switches and key is None and not (si is not None and switch_hook is not None and False):
             # remember the outcome of a test on a plain boolean local for later tests of the same local
